@@ -13,6 +13,8 @@ import FFVerif.Props.C07
 import FFVerif.Props.C09
 import FFVerif.Model.Miner
 import FFVerif.Props.C19
+import FFVerif.Props.C20
+import FFVerif.Gen.DiffTables
 import FFVerif.Gen.MeanStress
 import FFVerif.Gen.Wave
 import FFVerif.Gen.Wind
@@ -60,6 +62,16 @@ def handle (toks : List String) : Option String :=
     match Miner.getN (pairs sn) lim[0]! S[0]! with
     | some v => some s!"{(Float.log10 v).toBits.toNat}"
     | none => some "sentinel"
+  | ["c20weights", m, n] => do
+    let m ← m.toNat?
+    let n ← n.toNat?
+    match C20.exactWeights m n with
+    | some w => some ((if C20.momentOKRat n m w then "ok " else "bad ") ++
+        " ".intercalate (w.toList.map (fun q => s!"{q.num}/{q.den}")))
+    | none => some "singular"
+  | ["c20tables"] =>
+    some (" ".intercalate (Gen.diffTables.map (fun t =>
+      s!"{t.1}:{t.2.1}:{if C20.momentOK t.1 t.2.1 t.2.2.1 t.2.2.2 then 1 else 0}")))
   | "c09lin" :: args => do
     let a ← parseFloats args
     if a.size = 5 then some s!"{(C09.linearResidual a[0]! a[1]! a[2]! a[3]! a[4]!).toBits.toNat}" else none
